@@ -175,7 +175,7 @@ class Machine:
             return 1 <= o["a"] < len(self.procs)
         if k == "cond":
             s = o["s"]
-            return all(self.exists(x) and self.kinds[x] in USER for x in s) and len(set(s)) == len(s)
+            return all(self.exists(x) and self.kinds[x] in USER for x in s)
         if k == "runev":
             return self.exists(o["a"]) and self.kinds[o["a"]] in USER
         if k in ("request", "put", "get"):
@@ -611,7 +611,10 @@ class Chooser:
                 u = self.users()
                 n = rng.choice([0, 1, 2, 2, 2, 3, 3])
                 n = min(n, len(u))
-                return {"k": "cond", "a": rng.choice([0, 1]), "b": 1 if k == "cond" else 0, "c": 0, "s": rng.sample(u, n)}
+                kids = rng.sample(u, n)
+                if kids and rng.random() < g.get("dup_operands", 0.12):
+                    kids.insert(rng.randrange(len(kids) + 1), rng.choice(kids))     # the same event listed twice
+                return {"k": "cond", "a": rng.choice([0, 1]), "b": 1 if k == "cond" else 0, "c": 0, "s": kids}
             if k == "yield" and not is_top:
                 u = [x for x in self.users() if m.events[x] is not m.procs[P]]
                 if u:
